@@ -413,6 +413,53 @@ impl RefGrp for JqRef {
     fn neutral(&self) -> APt { (self.f.neg(&bi(1)), bi(0)) }
 }
 
+// ---------- GLS254: reference binary field arithmetic and the decoding rule of eprint 2022/1325 ----------
+// GF(2^127) = GF(2)[z]/(1 + z^63 + z^127), elements as u128 (bit i = coefficient of z^i);
+// GF(2^254) = GF(2^127)[u]/(1 + u + u^2), elements as (x0, x1) = x0 + x1*u.
+type B254 = (u128, u128);
+fn b127_mul(a: u128, b: u128) -> u128 {
+    let mut a = a;
+    let mut r = 0u128;
+    for i in 0..127 {
+        if (b >> i) & 1 == 1 { r ^= a; }
+        a <<= 1;
+        if (a >> 127) & 1 == 1 { a = (a & ((1u128 << 127) - 1)) ^ 1 ^ (1u128 << 63); }
+    }
+    r
+}
+fn b254_mul(a: B254, b: B254) -> B254 {
+    let (p00, p11) = (b127_mul(a.0, b.0), b127_mul(a.1, b.1));
+    (p00 ^ p11, b127_mul(a.0, b.1) ^ b127_mul(a.1, b.0) ^ p11)
+}
+fn b254_sq(a: B254) -> B254 { b254_mul(a, a) }
+fn b254_inv(a: B254) -> B254 {
+    // a^(2^254 - 2)
+    let mut r = (1u128, 0u128);
+    let mut t = b254_sq(a);
+    for _ in 1..254 { r = b254_mul(r, t); t = b254_sq(t); }
+    r
+}
+fn b254_trace(a: B254) -> u32 {
+    let mut s = (0u128, 0u128);
+    let mut t = a;
+    for _ in 0..254 { s = (s.0 ^ t.0, s.1 ^ t.1); t = b254_sq(t); }
+    assert!(s.1 == 0 && s.0 <= 1, "trace not in GF(2)");
+    s.0 as u32
+}
+/// w (32 bytes: two 127-bit halves, top bits zero) is the encoding of a group element iff
+/// w == 0 (neutral) or x^2 + (w^2+w+a)*x + b = 0 has solutions, i.e. Tr(b/(w^2+w+a)^2) == 0  (a = u, b = 1+z^54).
+fn gls254_ref_decode_ok(buf: &[u8]) -> bool {
+    if buf.len() != 32 { return false; }
+    let w = (u128::from_le_bytes(buf[..16].try_into().unwrap()), u128::from_le_bytes(buf[16..].try_into().unwrap()));
+    if (w.0 >> 127) != 0 || (w.1 >> 127) != 0 { return false; }
+    if w == (0, 0) { return true; }
+    let ww = b254_sq(w);
+    let d = (ww.0 ^ w.0, ww.1 ^ w.1 ^ 1);
+    let b = (1u128 | (1u128 << 54), 0u128);
+    let e = b254_mul(b, b254_inv(b254_sq(d)));
+    b254_trace(e) == 0
+}
+
 // ======================================================================
 // Uniform access to the nine crrl groups
 // ======================================================================
@@ -454,7 +501,8 @@ trait Grp: Copy + Send + Sync + 'static {
     fn dbl_variants(self) -> Vec<Self>;
     fn xdbl_variants(self, n: u32) -> Vec<Self>;
     fn mulk_variants(self, k: u64) -> Vec<Self>;
-    fn mul_variants(self, s: &Self::S) -> Vec<Self>;
+    /// two of the nine operator forms of P*s, selected by `which`
+    fn mul_variants(self, s: &Self::S, which: usize) -> Vec<Self>;
     fn mulgen_variants(s: &Self::S, dirty: Self) -> Vec<Self>;
     fn sc(b: &[u8]) -> Self::S;
     fn sc_enc(s: &Self::S) -> Vec<u8>;
@@ -542,12 +590,16 @@ macro_rules! impl_grp {
                 let mut t = self; t *= k; v.push(t);
                 v
             }
-            fn mul_variants(self, s: &Self::S) -> Vec<Self> {
+            fn mul_variants(self, s: &Self::S, which: usize) -> Vec<Self> {
                 let sv = *s;
-                let mut v = vec![self * sv, &self * sv, &self * s, sv * self, s * &self, sv * &self, s * self];
-                let mut t = self; t *= sv; v.push(t);
-                let mut t = self; t *= s; v.push(t);
-                v
+                let one = |w: usize| -> Self {
+                    match w % 9 {
+                        0 => self * sv, 1 => &self * sv, 2 => &self * s, 3 => sv * self, 4 => s * &self, 5 => sv * &self, 6 => s * self,
+                        7 => { let mut t = self; t *= sv; t }
+                        _ => { let mut t = self; t *= s; t }
+                    }
+                };
+                vec![one(which), one(which / 9 + 1 + which % 9)]
             }
             fn mulgen_variants(s: &Self::S, dirty: Self) -> Vec<Self> {
                 let mut t = dirty; t.set_mulgen(s);
@@ -875,6 +927,10 @@ fn valid<G: Grp>(a: G, what: &str) -> Result<(), String> {
     chk(e.len() == G::ELEN, || format!("{}: encoding length {}", what, e.len()))?;
     let n = a.isneutral_raw();
     chk(n == 0 || n == T, || format!("{}: isneutral returned {:08x}", what, n))?;
+    // the internal representation must be usable in further operations (e.g. not (0:0:0))
+    let b = G::base();
+    same(a.add(b).sub(b), a, &format!("{}: (R+B)-B vs R", what))?;
+    same(b.add(a).sub(a), b, &format!("{}: (B+R)-R vs B", what))?;
     if n == T && !G::NEUTRAL_DECODES { return chk(e == neutral_enc::<G>(), || format!("{}: neutral encodes as {}", what, hex(&e))); }
     match G::dec(&e) {
         None => Err(format!("{}: result encoding {} does not decode", what, hex(&e))),
@@ -996,7 +1052,9 @@ fn c_mul_vs_dbladd<G: Grp>(inp: &[u8]) -> Result<(), String> {
     let bits = G::sc_enc(&s);
     chk(bits.len() == G::SLEN && le_to_int(&bits) == emod(&le_to_int(&inp[n..]), G::order()), || format!("scalar decode_reduce/encode: {}", hex(&bits)))?;
     let M = P.mul(&s);
-    same_all(M, P.mul_variants(&s), "P*n operator forms")?;
+    // all operator forms end in the same set_mul(); check two of them per evaluation, selected by the input
+    let h = inp.iter().fold(0usize, |a, &b| a.wrapping_mul(31).wrapping_add(b as usize));
+    same_all(M, P.mul_variants(&s, h), "P*n operator forms")?;
     same(M, dbladd(P, &bits), "P*n vs double-and-add")?;
     valid(M, "P*n")
 }
@@ -1019,18 +1077,31 @@ fn c_mul_homomorphism<G: Grp>(inp: &[u8]) -> Result<(), String> {
     let P = build::<G>(&inp[..n], false)?; // prime-order subgroup only: scalars are integers modulo the order
     let a = G::sc(&inp[n..n + G::SLEN]);
     let b = G::sc(&inp[n + G::SLEN..]);
-    let (Pa, Pb) = (P.mul(&a), P.mul(&b));
-    same(Pa.mul(&b), P.mul(&G::sc_mul(&a, &b)), "(P*a)*b vs P*(a*b)")?;
-    same(Pa.mul(&b), Pb.mul(&a), "(P*a)*b vs (P*b)*a")?;
-    same(P.mul(&G::sc_add(&a, &b)), Pa.add(Pb), "P*(a+b) vs P*a+P*b")?;
-    same(P.mul(&G::sc_sub(&a, &b)), Pa.sub(Pb), "P*(a-b) vs P*a-P*b")?;
-    same(P.mul(&G::sc_neg(&a)), Pa.neg(), "P*(-a) vs -(P*a)")?;
-    same(P.neg().mul(&a), Pa.neg(), "(-P)*a vs -(P*a)")?;
-    same(G::mulgen(&a).mul(&b), G::mulgen(&G::sc_mul(&a, &b)), "mulgen(a)*b vs mulgen(a*b)")?;
-    must_be_neutral(G::neutral().mul(&a), "0*a")?;
-    must_be_neutral(P.mul(&G::sc_u64(0)), "P*0")?;
-    same(P.mul(&G::sc_u64(1)), P, "P*1")?;
-    same(P.mul(&G::sc_neg(&G::sc_u64(1))), P.neg(), "P*(order-1) vs -P")
+    let Pa = P.mul(&a);
+    // three groups of identities (to keep one evaluation cheap); the group is selected by the input
+    let h = inp.iter().fold(0usize, |x, &y| x.wrapping_mul(31).wrapping_add(y as usize));
+    match h % 3 {
+        0 => {
+            let Pab = Pa.mul(&b);
+            same(Pab, P.mul(&G::sc_mul(&a, &b)), "(P*a)*b vs P*(a*b)")?;
+            same(Pab, P.mul(&b).mul(&a), "(P*a)*b vs (P*b)*a")?;
+            same(G::mulgen(&a).mul(&b), G::mulgen(&G::sc_mul(&a, &b)), "mulgen(a)*b vs mulgen(a*b)")
+        }
+        1 => {
+            let Pb = P.mul(&b);
+            same(P.mul(&G::sc_add(&a, &b)), Pa.add(Pb), "P*(a+b) vs P*a+P*b")?;
+            same(P.mul(&G::sc_sub(&a, &b)), Pa.sub(Pb), "P*(a-b) vs P*a-P*b")?;
+            same(P.mul(&G::sc_u64(1)), P, "P*1")?;
+            must_be_neutral(P.mul(&G::sc_u64(0)), "P*0")
+        }
+        _ => {
+            same(P.mul(&G::sc_neg(&a)), Pa.neg(), "P*(-a) vs -(P*a)")?;
+            same(P.neg().mul(&a), Pa.neg(), "(-P)*a vs -(P*a)")?;
+            must_be_neutral(G::neutral().mul(&a), "0*a")?;
+            must_be_neutral(P.sub(P).mul(&a), "(P-P)*a")?;
+            same(P.mul(&G::sc_neg(&G::sc_u64(1))), P.neg(), "P*(order-1) vs -P")
+        }
+    }
 }
 
 fn c_encode_equals<G: Grp>(inp: &[u8]) -> Result<(), String> {
@@ -1300,7 +1371,102 @@ fn reg_ref<G: Grp, R: RefGrp>(v: &mut Vec<Case>, rf: R) {
         ops: vec![dec_op::<G>()], run: Box::new(move |i: &[u8]| { let o = |b: &[u8]| rf.decode(b).is_some(); c_decode_strict::<G>(Some(&o), i) }) }); }
 }
 
+/// candidate affine coordinates (x LE32 || y LE32) for the Weierstrass API cases
+fn xy_of<G: Grp>(p: G) -> Vec<u8> {
+    let e = p.enc(); // 04 || x BE || y BE (zeros for the neutral)
+    let mut v: Vec<u8> = e[1..33].iter().rev().cloned().collect();
+    v.extend(e[33..65].iter().rev());
+    v
+}
+fn xy_specials<G: Grp>() -> Vec<Vec<u8>> {
+    let b = G::base();
+    let mut v = vec![vec![0u8; 64], vec![0xFFu8; 64]];
+    for p in [b, b.neg(), b.dbl(), G::neutral()] {
+        let e = xy_of(p);
+        v.push(e.clone());
+        let mut m = e.clone(); m[0] ^= 1; v.push(m);
+        let mut m = e.clone(); m[32] ^= 1; v.push(m);
+        let mut m = e.clone(); m[63] ^= 0x80; v.push(m);
+    }
+    v
+}
+fn xy_random<G: Grp>(r: &mut Rng) -> Vec<u8> {
+    if r.below(4) == 0 { return rand_bytes(r, 64); }
+    let mut e = xy_of(G::mulgen(&G::sc(&sc_random::<G>(r))));
+    if r.below(3) == 0 { let i = r.below(512) as usize; e[i >> 3] ^= 1 << (i & 7); }
+    e
+}
+fn xy_op<G: Grp>() -> Op { Op::Custom { len: Some(64), specials: xy_specials::<G>, random: xy_random::<G> } }
+
+/// P-256 / secp256k1: affine and projective coordinate API
+macro_rules! ws_api_cases {
+    ($v:ident, $m:ident, $F:ty, $ws:expr, $neutral_x:expr) => {{
+        type P = crrl::$m::Point;
+        fn fe(b: &[u8]) -> $F { <$F>::decode_reduce(b) }
+        fn fint(x: $F) -> BigInt { le_to_int(&x.encode()) }
+        let ops = vec![pt_op::<P>(), Op::Raw(32), xy_op::<P>()];
+        let ws = Arc::new($ws);
+        { let ws = ws.clone();
+          $v.push(Case { id: format!("{}_affine_api", <P as Grp>::NAME), describe: "C06: to_affine/from_affine/to_projective/from_projective agree with encode_uncompressed and with the curve equation; any non-zero rescaling of (X:Y:Z) is the same point; (X:Y:0) is the neutral",
+            ops: ops.clone(), run: Box::new(move |inp: &[u8]| {
+                let n = 1 + <P as Grp>::PLEN;
+                if inp.len() != n + 96 { return Ok(()); }
+                let pt = build::<P>(&inp[..n], true)?;
+                let lam = fe(&inp[n..n + 32]);
+                let (cx, cy) = (fe(&inp[n + 32..n + 64]), fe(&inp[n + 64..n + 96]));
+                let e = pt.encode_uncompressed();
+                let (x, y, _) = pt.to_affine();
+                if pt.isneutral() == T {
+                    chk(fint(x) == bi($neutral_x) && is0(&fint(y)), || format!("to_affine(neutral) = ({}, {})", fint(x), fint(y)))?;
+                } else {
+                    chk(int_to_be(&fint(x), 32) == e[1..33] && int_to_be(&fint(y), 32) == e[33..65], || "to_affine vs encode_uncompressed".to_string())?;
+                    match P::from_affine(x, y) { Some(q) => same(q, pt, "from_affine(to_affine(P)) vs P")?, None => return Err("from_affine rejected to_affine(P)".into()) }
+                    let mut q = P::BASE;
+                    chk(q.set_affine(x, y) == T, || "set_affine rejected to_affine(P)".to_string())?;
+                    same(q, pt, "set_affine(to_affine(P)) vs P")?;
+                }
+                let (px, py, pz) = pt.to_projective();
+                chk((pz.iszero() == T) == (pt.isneutral() == T) && py.iszero() == 0, || "to_projective: Z==0 <=> neutral, Y != 0".to_string())?;
+                match P::from_projective(px, py, pz) { Some(q) => same(q, pt, "from_projective(to_projective(P)) vs P")?, None => return Err("from_projective rejected to_projective(P)".into()) }
+                if lam.iszero() == 0 {
+                    match P::from_projective(px * lam, py * lam, pz * lam) {
+                        Some(q) => { same(q, pt, "from_projective(l*X,l*Y,l*Z) vs P")?; same(q.add(pt), pt.dbl(), "rescaled P + P vs double(P)")?; must_be_neutral(q.sub(pt), "rescaled P - P")?; }
+                        None => return Err("from_projective rejected a rescaled representation".into()),
+                    }
+                }
+                match P::from_projective(cx, cy, <$F>::ZERO) { Some(q) => { must_be_neutral(q, "from_projective(X,Y,0)")?; same(q.add(pt), pt, "(X:Y:0)+P vs P")?; } None => return Err("from_projective(X,Y,0) rejected".into()) }
+                // arbitrary candidate coordinates: accepted iff on the curve (big-integer check)
+                let on = ws.on_curve(&fint(cx), &fint(cy));
+                let mut q = P::BASE;
+                let r = q.set_affine(cx, cy);
+                chk(r == (if on { T } else { 0 }) && P::from_affine(cx, cy).is_some() == on, || format!("set_affine({}, {}) returned {:08x}, on curve: {}", fint(cx), fint(cy), r, on))?;
+                if !on { must_be_neutral(q, "set_affine failure must leave the neutral")?; } else {
+                    let mut w = vec![4u8]; w.extend(int_to_be(&fint(cx), 32)); w.extend(int_to_be(&fint(cy), 32));
+                    chk(q.encode_uncompressed()[..] == w[..], || "set_affine point encodes differently".to_string())?;
+                }
+                if lam.iszero() == 0 {
+                    let mut q = P::BASE;
+                    let r = q.set_projective(cx * lam, cy * lam, lam);
+                    chk(r == (if on { T } else { 0 }), || format!("set_projective returned {:08x}, on curve: {}", r, on))?;
+                    if !on { must_be_neutral(q, "set_projective failure must leave the neutral")?; }
+                }
+                Ok(())
+            }) }); }
+        $v.push(Case { id: format!("{}_to_affine_flag", <P as Grp>::NAME), describe: "C06: to_affine() third output: 0x00000000 for the neutral, 0xFFFFFFFF otherwise (as documented)",
+            ops: vec![pt_op::<P>()], run: Box::new(move |inp: &[u8]| {
+                let n = 1 + <P as Grp>::PLEN;
+                if inp.len() != n { return Ok(()); }
+                let pt = build::<P>(inp, true)?;
+                let (_, _, r) = pt.to_affine();
+                let want = if pt.encode_uncompressed()[0] == 0 { 0 } else { T };
+                chk(r == want, || format!("to_affine flag {:08x}, documented {:08x} (point {})", r, want, hex(&pt.encode_compressed())))
+            }) });
+    }};
+}
+
 pub fn register(v: &mut Vec<Case>) {
+    ws_api_cases!(v, p256, crrl::field::GFp256, WsRef::p256(), 1);
+    ws_api_cases!(v, secp256k1, crrl::field::GFsecp256k1, WsRef::secp256k1(), 0);
     reg_relational::<crrl::ed25519::Point>(v);
     reg_relational::<crrl::ed448::Point>(v);
     reg_relational::<crrl::p256::Point>(v);
@@ -1318,6 +1484,59 @@ pub fn register(v: &mut Vec<Case>) {
     reg_ref::<crrl::jq255s::Point, _>(v, JqRef::jq255s());
     reg_ref::<crrl::ristretto255::Point, _>(v, RistRef::new());
     reg_ref::<crrl::decaf448::Point, _>(v, DecafRef::new());
-    v.push(Case { id: "gls254_decode_roundtrip".into(), describe: "C06: gls254 decode: accepted inputs are 32 bytes and re-encode identically; decode == set_decode; failure leaves the neutral (no independent acceptance oracle)",
-        ops: vec![dec_op::<crrl::gls254::Point>()], run: Box::new(|i: &[u8]| c_decode_strict::<crrl::gls254::Point>(None, i)) });
+    macro_rules! subgroup_flags { ($m:ident) => {
+        v.push(Case { id: format!("{}_subgroup_flags", stringify!($m)), describe: "C03: has_low_order(P) <=> P is one of the torsion points (reference list); is_in_subgroup(P) <=> order*P == neutral (double-and-add)",
+            ops: vec![pt_op::<crrl::$m::Point>()], run: Box::new(|inp: &[u8]| {
+                type P = crrl::$m::Point;
+                if inp.len() != 1 + <P as Grp>::PLEN { return Ok(()); }
+                let pt = build::<P>(inp, true)?;
+                let e = pt.enc();
+                let low = <P as Grp>::torsion_encs().iter().any(|t| *t == e);
+                let h = pt.has_low_order();
+                chk(h == (if low { T } else { 0 }), || format!("has_low_order={:08x} for {} (torsion: {})", h, hex(&e), low))?;
+                let lp = dbladd(pt, &int_to_le(<P as Grp>::order(), <P as Grp>::SLEN));
+                let insub = lp.isneutral() == T;
+                let s = pt.is_in_subgroup();
+                chk(s == (if insub { T } else { 0 }), || format!("is_in_subgroup={:08x} for {} (order*P neutral: {})", s, hex(&e), insub))
+            }) });
+    } }
+    subgroup_flags!(ed25519);
+    subgroup_flags!(ed448);
+    v.push(Case { id: "gls254_zeta_split".into(), describe: "C04: gls254 endomorphism: zeta(P,neg) == +/-(P*MU), MU^2 == -1; split_mu(k) / split_mu_odd(k): k0 + k1*MU == k mod r with the documented size (and parity) bounds",
+        ops: vec![pt_op::<crrl::gls254::Point>(), sc_op::<crrl::gls254::Point>()], run: Box::new(|inp: &[u8]| {
+            type P = crrl::gls254::Point;
+            type S = crrl::gls254::Scalar;
+            let n = 1 + <P as Grp>::PLEN;
+            if inp.len() != n + 32 { return Ok(()); }
+            let pt = build::<P>(&inp[..n], true)?;
+            let k = <P as Grp>::sc(&inp[n..]);
+            let r = <P as Grp>::order();
+            let mu = le_to_int(&S::MU.encode());
+            chk(emod(&(&mu * &mu + bi(1)), r) == bi(0), || "MU^2 != -1".to_string())?;
+            let pm = pt * S::MU;
+            same(pt.zeta(0), pm, "zeta(P,0) vs P*MU")?;
+            same(pt.zeta(T), -pm, "zeta(P,-1) vs -(P*MU)")?;
+            let mut q = pt; q.set_zeta(0);
+            same(q, pm, "set_zeta")?;
+            same(pt.zeta(0).zeta(0), -pt, "zeta(zeta(P)) vs -P")?;
+            let ki = le_to_int(&k.encode());
+            let sgn = |m: u128, s: u32| -> Result<BigInt, String> {
+                chk(s == 0 || s == T, || format!("sign flag {:08x}", s))?;
+                Ok(if s == T { -BigInt::from(m) } else { BigInt::from(m) })
+            };
+            let (n0, s0, n1, s1) = P::split_mu(&k);
+            let (k0, k1) = (sgn(n0, s0)?, sgn(n1, s1)?);
+            chk(emod(&(&k0 + &k1 * &mu - &ki), r) == bi(0), || format!("split_mu: k0={} k1={} do not recombine", k0, k1))?;
+            chk(n0 < (1u128 << 127) && n1 < (1u128 << 127), || format!("split_mu: |k0|={:#x} |k1|={:#x} too large", n0, n1))?;
+            let (m0, t0, m1, t1) = P::split_mu_odd(&k);
+            let (j0, j1) = (sgn(m0, t0)?, sgn(m1, t1)?);
+            chk(emod(&(&j0 + &j1 * &mu - &ki), r) == bi(0), || format!("split_mu_odd: k0={} k1={} do not recombine", j0, j1))?;
+            chk(m0 & 1 == 1 && m1 & 1 == 1, || format!("split_mu_odd: |k0|={:#x} |k1|={:#x} not both odd", m0, m1))?;
+            // P*k recombined from the split with the crate's own small multiplications
+            let h = |p: P, m: u128, s: u32| -> P { let lo = p * (m as u64); let hi = (p * ((m >> 64) as u64)).xdouble(64); let x = lo + hi; if s == T { -x } else { x } };
+            same(h(pt, n0, s0) + h(pt.zeta(0), n1, s1), pt * k, "k0*P + k1*zeta(P) vs P*k")?;
+            same(h(pt, m0, t0) + h(pt.zeta(0), m1, t1), pt * k, "odd split: k0*P + k1*zeta(P) vs P*k")
+        }) });
+    v.push(Case { id: "gls254_decode_strict".into(), describe: "C06: gls254 decode accepts exactly 32-byte inputs with both top bits clear that are 0 or satisfy Tr(b/(w^2+w+a)^2)==0 (reference GF(2^254) arithmetic); accepted inputs re-encode identically; failure leaves the neutral",
+        ops: vec![dec_op::<crrl::gls254::Point>()], run: Box::new(|i: &[u8]| c_decode_strict::<crrl::gls254::Point>(Some(&gls254_ref_decode_ok), i)) });
 }
